@@ -9,6 +9,7 @@
    The comparison trait is the argument [cmp]; the height of a new node (what mkNode returned)
    is an explicit argument of [put]. *)
 From Coq Require Import List ZArith Bool Arith.
+From Golem Require Export Skiplist.Spec.
 Import ListNotations.
 
 Record node := mkN { key : Z; val : Z; fingers : list (option nat) }.
@@ -142,9 +143,7 @@ Fixpoint print_loop (fuel : nat) (h : heap) (v : option nat) : list (Z * list (o
 
 Definition print (h : heap) : list (Z * list (option Z)) := print_loop (S (length h)) h (Some 0).
 
-(* histories *)
-Inductive op := Put (k v : Z) (ht : nat) | Get (k : Z) | Remove (k : Z).
-
+(* histories: [op] of Skiplist/Spec.v *)
 (* one operation: new heap and the answer (Put answers nothing: 0) *)
 Definition step (cmp : Z -> Z -> comparison) (levels : nat) (h : heap) (o : op) : heap * Z :=
   match o with
